@@ -435,6 +435,22 @@ func e2ePass(c *vh.Ctx) {
 			}
 		}
 	}
+	// --- C1b: active role: the peer answers our Select.req with each non-zero select-status and then
+	// stays silent with the link open. Status 1 (Communication Already Active) is deliberately not a
+	// drop for the select procedure: while still NotSelected the T7 dwell timer is the backstop and must
+	// drop the link; statuses >= 2 drop at once. Either way the connection re-dials and reaches
+	// Selected with the healthy next peer (bound: T7 + backoff + slack, inside the recovery window).
+	for _, st := range []byte{1, 2, 3, 255} {
+		cfg := e2eCfg()
+		cfg.Linktest = 0
+		p := lc.Normal()
+		p.SelectStatus = st
+		t0 := time.Now()
+		runScenario(c, scenario{tag: fmt.Sprintf("selstatus:%d", st), active: true, cfg: cfg, plans: []lc.Plan{p}, wantDrops: true, quiet: true})
+		if el := time.Since(t0); el > cfg.T7+cfg.T6+cfg.BackoffInit+upSlack+time.Second {
+			c.Fail("C11: recovery after a non-zero select-status took longer than T7 + backoff + slack", fmt.Sprintf("selstatus:%d elapsed_ms=%d", st, el.Milliseconds()))
+		}
+	}
 	// --- C2: the peer goes SILENT (no close) at every byte offset inside an inbound data frame; no
 	// linktest, so only T8 covers it ---
 	for _, active := range []bool{true, false} {
